@@ -253,7 +253,9 @@ struct MtGen {
     int nt = (int)g.range(2, thorough ? 6 : 4);
     for (int i = 0; i < nt; i++) {
       Rec &t = p.add("task"); double u = g.unit(); std::string kind = u < 0.4 ? "enc" : u < 0.65 ? "dec" : "vf";
-      Recipe r = recipe(kind == "enc"); r.to(t); t.set("kind", kind).setu("tseed", g.below(100000));
+      Recipe r = recipe(kind == "enc");
+      if (kind != "enc" && g.chance(0.18)) { Recipe z; z.craft = 1; z.ch = (int)g.range(1, 3); z.rate = r.rate; z.seed = g.below(thorough ? 400 : 40); z.n = (int64_t)(20 + 20 * g.below(5)); z.ncomm = 1; auto lz = get_link(z); if (lz->ok && !lz->ref_err && lz->len > 0) r = z; }   // hand-built set-ups: floor 0, residue 0, lookup type 2 ... under other heap contents and interleavings too
+      r.to(t); t.set("kind", kind).setu("tseed", g.below(100000));
       if (kind == "dec") t.set("halfrate", g.chance(0.15) ? 1 : 0);
       if (kind == "vf") { t.set("seekable", g.chance(0.8) ? 1 : 0).set("rdpol", (int64_t)g.below(5)).set("rdk", (int64_t)g.range(16, 3000)).set("pol", (int64_t)g.below(4)).set("k", 4); if (g.chance(0.4)) t.set("r2ch", (int64_t)g.range(1, 2)).set("r2rate", g.chance(0.5) ? 22050 : 48000); if (g.chance(0.3)) t.set("junk", (int64_t)g.range(1, 26)); }
     }
